@@ -18,7 +18,7 @@ func init() {
 			"the time bounds of a memtable chunk, which prune time-bounded reads, are maintained for every appended row (late rows included); NOT decided: that the contents equal the model map for every history (value-level), column-wise replace arithmetic, cursor paging.",
 		Assumptions: commonAssumptions,
 		Technique:   "static analysis: predicate truth-table equivalence over normalised comparisons, argument-role tables by canonical definitions, must-precede cuts on go/cfg",
-		Rules:       "C02.R1 R2 R3 R4 R5 R6 R7",
+		Rules:       "C02.R1 R2 R3 R4 R5 R6 R7 R8 R9",
 	}
 }
 
@@ -221,6 +221,75 @@ func c02(c *an.Ctx) {
 			}
 		}
 	}
+	// ---------------------------------------------------------------- R8
+	{
+		// Out-of-order files take precedence over ordered files, newer out-of-order files over older
+		// ones.  A merge moves a set of out-of-order files into the ordered layer; if it takes a file
+		// but leaves an OLDER out-of-order file behind, the older file now overrides the newer data.
+		// So once a merge context holds a file, the scan of the (oldest-first) list must not skip one.
+		r := c.Rule("C02.R8", "K-LOOPSELECT", "engine/immutable: merge-context builders take a contiguous run of the out-of-order file list (a file is skipped only while nothing has been selected, or for the stated level reasons)")
+		const I = "engine/immutable"
+		add := call(r, I+":MergeContext.AddUnordered")
+		empty := an.AtomLike(`^0==local\(\w+\)\.UnorderedLen\(\)$`, true)
+		for _, b := range []struct {
+			spec string
+			skip []an.AtomPred
+		}{
+			{I + ":buildNormalMergeContext", nil},
+			{I + ":buildFullMergeContext", []an.AtomPred{empty}},
+			{I + ":buildLevelMergeContext", []an.AtomPred{empty, an.AtomLike(`^`+elemRe+`\.FileNameMerge\(\)==p2$`, false)}},
+			{I + ":buildLowLevelFullMergeContext", []an.AtomPred{an.AtomLike(`^`+elemRe+`\.FileNameMerge\(\)<p2$`, false)}},
+		} {
+			if f := fn(r, b.spec); f != nil && !r.Failed() {
+				f.LoopSelectsAll(r, f.Find(add), "every file of the scan is added once the context is not empty", b.skip...)
+			}
+		}
+		r.Except("buildLevelMergeContext / buildLowLevelFullMergeContext", "files of another merge level are skipped by design (C03.R6 closes the run at a level change; the low-level full merge feeds the parquet conversion)")
+	}
+	// ---------------------------------------------------------------- R9
+	{
+		// mergeData hands out the rows of two cursors batch by batch; a cursor remembers in `pos` how
+		// many rows of its current record were already merged out.  Handing the record out whole is the
+		// same as handing out the rest only if pos == 0 — otherwise rows are returned twice (duplicate
+		// timestamps, stale values after newer ones).
+		r := c.Rule("C02.R9", "K-GUARD", "engine:mergeData — a cursor's record is handed out whole only when none of its rows was consumed (pos == 0)")
+		if f := fn(r, E+":mergeData"); f != nil {
+			recFld := obj(r, E+":recordIter.record")
+			whole := f.Find(an.MNode("whole record of a cursor taken as the result", func(g *an.Fn, m ast.Node) bool {
+				var vals []ast.Expr
+				switch x := m.(type) {
+				case *ast.AssignStmt:
+					vals = x.Rhs
+				case *ast.ReturnStmt:
+					vals = x.Results
+				default:
+					return false
+				}
+				for _, e := range vals {
+					if sel, ok := ast.Unparen(e).(*ast.SelectorExpr); ok && g.Info.Uses[sel.Sel] == recFld {
+						return true
+					}
+				}
+				return false
+			}))
+			r.AddSites(whole.Len())
+			if !r.Failed() {
+				for _, s := range whole.List {
+					var sel *ast.SelectorExpr
+					ast.Inspect(s.Node, func(k ast.Node) bool {
+						if x, ok := k.(*ast.SelectorExpr); ok && sel == nil && f.Info.Uses[x.Sel] == recFld {
+							sel = x
+						}
+						return true
+					})
+					it := f.Canon(sel.X)
+					one := &an.Sites{F: f, Desc: it + ".record handed out whole", List: []an.Site{s}}
+					f.Guarded(r, one, "whole record only for an unconsumed cursor ("+it+".pos == 0)", an.AtomIs("0=="+it+".pos", true))
+				}
+			}
+			r.Floor(2, "whole-record hand-outs in mergeData")
+		}
+	}
 	// ---------------------------------------------------------------- R4
 	{
 		r := c.Rule("C02.R4", "K-PREDSHAPE", MU+":SplitRecordByTime — rows with time ≤ flush time go to the out-of-order side; the three boundary comparisons agree")
@@ -291,7 +360,7 @@ func c02(c *an.Ctx) {
 	}
 	// ---------------------------------------------------------------- R7
 	{
-		r := c.Rule("C02.R7", "K-PREDSHAPE", "engine/immutable:(*LocationCursor).Less — ordered locations by chunk time, out-of-order locations by file sequence (older file first)")
+		r := c.Rule("C02.R7 R8 R9", "K-PREDSHAPE", "engine/immutable:(*LocationCursor).Less — ordered locations by chunk time, out-of-order locations by file sequence (older file first)")
 		if f := fn(r, "engine/immutable:LocationCursor.Less"); f != nil {
 			f.AtomRename = an.Roles(
 				`^recv\.lcs\[p0\]\.r\.IsOrder\(\)$`, "I_IS_ORDER",
